@@ -26,23 +26,24 @@ type stepRow struct {
 }
 
 type stepAnalysis struct {
-	c     *dom.Ctx
-	impl  *engine.ImplSummary
-	ref   *engine.RefSummary
-	rows  []stepRow
-	err   error
-	im0   []im0Case
-	implE []string
-	refE  []string
+	c         *dom.Ctx
+	impl      *engine.ImplSummary
+	ref       *engine.RefSummary
+	rows      []stepRow
+	emptyRows []stepRow
+	err       error
+	im0       []im0Case
+	implE     []string
+	refE      []string
 }
 
 type im0Case struct {
 	name   string
 	pushed string // what the implementation pushes, rendered (part of the finding key)
-	und   error
-	diffs []engine.Diff
-	implE []string
-	refE  []string
+	und    error
+	diffs  []engine.Diff
+	implE  []string
+	refE   []string
 }
 
 func diffStrings(ds []engine.Diff, keep func(engine.Diff) bool) []string {
@@ -94,6 +95,10 @@ func analyseStep(cx *Ctx) *stepAnalysis {
 		{"IM1", rows.IM1, "maskable, IFF1 set, mode 1: PC pushed, PC=0x0038, IFF1=IFF2=0, consumed"},
 		{"IM2", rows.IM2, "maskable, IFF1 set, mode 2, vector supplied: PC pushed, PC=word at I*256+(vector&0xFE), IFF1=IFF2=0, consumed"},
 		{"IM-other", rows.IMOther, "maskable, IFF1 set, IM outside 0..2: treated as refused"},
+	}
+	sa.emptyRows = []stepRow{
+		{"IM0-empty-data", rows.IM0Empty, "mode 0 request without data bytes"},
+		{"IM2-empty-data", rows.IM2Empty, "mode 2 request without a vector"},
 	}
 	// mode 0 with RST p / CALL nn
 	for k := 0; k < 9; k++ {
